@@ -467,19 +467,29 @@ def run(ctx):
     ctx.bounds.update({'worker_record': 'queue of 0..2 jobs over two keys, zero or one job in flight, discard settings none / Oldest / Newest with limit 1, TTL expiry symbolic per job, hand-over succeeding or failing',
                        'factory_state': 'backlog of 0..3 jobs, symbolic limit <= 8 with the backlog within it, three discard modes, draining or not, with / without a worker hint; router and queue by contract',
                        'histories': 'arbitrary length by induction: every operation conserves jobs from every pre-state of these shapes',
-                       'outside': 'the composition across the factory actor, the worker actors and supervision on a runtime (a Finished message of a dead incarnation arriving after its replacement was installed, '
+                       'outside': 'the composition across the factory actor and the worker actors on a runtime (a Finished message of a dead incarnation arriving after its replacement was installed, '
                                   'messages lost inside a worker mailbox when it dies); priority queues (FIFO contract only); resize / drain orchestration'})
     ctx.assumptions += ['Queue contract: FIFO; pop_front / discard_oldest remove the head; peek shows it', 'Router contract: route_message either enqueues the job at a worker (Handled) or returns that same job '
                         '(RateLimited, Backlog; never Backlog when given a worker hint)', 'the discard handler and the acceptance port (Job::accept / reject) are recorded as events']
     check_worker(ctx, prog)
     check_factory(ctx, prog)
     check_finished(ctx, prog)
+    # the death of a worker as the factory handles it (the supervision arms of the factory actor): nothing queued behind the dead worker's job is lost with the
+    # slot - the same exploration as C15's pool slice, whose conservation claims belong to this property
+    import C15_pool
+    C15_pool.check_supervision(ctx, prog)
+    ctx.bounds['worker_death'] = 'Factory::handle_supervisor_evt from every pool shape of C15_pool (pool_size 1..3 of 4 slots, draining workers busy, with / without one job queued behind the in-flight one)'
 
 
 def replay_file(path):
     import json
     import C13_replay
     d = json.load(open(path))
+    if d['replay'].get('which') == 'pool':
+        import C15_pool_replay
+        r = C15_pool_replay.replay(d['replay']['rp'])
+        print(r['detail'])
+        return 1 if r['replayed'] else 0
     r = C13_replay.replay_file(d['replay'])
     print(r['detail'])
     return 1 if r['replayed'] else 0
